@@ -70,7 +70,8 @@ def plan_dp(tier, seed, props):
             items += [item("obj_3", o, 0.05), item("nestarr_3", o, 0.01)]
     items += [item("keyed2k", KEYS2, 0.5 if q else 1.0)]
     for o in (KEYS, SET, MSET, O(keys=["id"], merge=True)):
-        items += [item("keyed_2", o, 0.6 if q else 1.0), item("keyeddeep", o, 1.0), item("keyedcont", o, 0.4 if q else 1.0)]
+        items += [item("keyed_2", o, 0.6 if q else 1.0), item("keyeddeep", o, 1.0), item("keyedcont", o, 0.4 if q else 1.0),
+                  item("keyedwide", o, 0.3 if q else 1.0)]
         if not q:
             items += [item("keyed_3", o, 0.5)]
     if "C05" in props or "C07" in props:
@@ -110,6 +111,7 @@ def plan_pt(tier, seed, props):
                   item("keyed_2", KEYS, 1.0, False, max=12, mode="whole"),
                   item("keyeddeep", KEYS, 1.0, False, max=12, mode="whole"),
                   item("keyedcont", KEYS, 0.5 if q else 1.0, False, max=10, mode="whole"),
+                  item("keyedwide", KEYS, 0.3 if q else 1.0, False, max=10, mode="whole"),
                   item("keyed2k", KEYS2, 0.5 if q else 1.0, False, max=14, mode="whole")]
         if not q:
             items += [item("keyed_3", KEYS, 0.4, False, max=12, mode="whole")]
@@ -142,7 +144,7 @@ def plan_tx(tier, seed, props):
                  (SETMERGE, 0.02 if q else 0.2), (MSETMERGE, 0.02 if q else 0.2)):
         items += [item("scalarr_4_3", o, f), item("nestarr_2", o, f), item("obj_2", o, f), item("deep", o, f / 2)]
     for o in (KEYS, O(keys=["id"], merge=True)):
-        items += [item("keyed_2", o, 0.5 if q else 1.0), item("keyeddeep", o, 1.0), item("keyedcont", o, 0.3 if q else 1.0)]
+        items += [item("keyed_2", o, 0.5 if q else 1.0), item("keyeddeep", o, 1.0), item("keyedcont", o, 0.3 if q else 1.0), item("keyedwide", o, 0.2 if q else 1.0)]
     items += [item("strdocs", NONE, 0.5 if q else 1.0), item("kinds", NONE, 0.04 if q else 0.4), item("siblings", NONE, 0.15 if q else 1.0),
               item("kinds", MERGE, 0.02 if q else 0.2), item("kinds", SET, 0.02 if q else 0.2),
               item("long_key", NONE, 0.1 if q else 1.0, False), item("wide", NONE, 0.5 if q else 1.0, False), item("wide", MERGE, 0.3 if q else 1.0, False)]
@@ -260,7 +262,7 @@ def plan_v1(tier, seed, props):
     if not c18:
         items += [item("kinds", o, 0.03 if q else 0.3, mode="negzero") for o in (NONE, SET, MSET)]
         # the keyed reading of v1 (SET + Setkeys), on the families whose array members all carry the keys
-        items += [item("keyed_2", SETKEYS, 0.6 if q else 1.0), item("keyeddeep", SETKEYS, 1.0), item("keyedcont", SETKEYS, 0.4 if q else 1.0),
+        items += [item("keyed_2", SETKEYS, 0.6 if q else 1.0), item("keyeddeep", SETKEYS, 1.0), item("keyedcont", SETKEYS, 0.4 if q else 1.0), item("keyedwide", SETKEYS, 0.5 if q else 1.0),
                   item("keyed2k", O(set=True, keys=["from", "to"]), 0.3 if q else 1.0)]
     return items
 
